@@ -39,6 +39,10 @@ type c24Input struct {
 	Writers   int     `json:"writers,omitempty"`
 	PerWriter int     `json:"per_writer,omitempty"`
 	Flushes   int     `json:"flushes,omitempty"`
+	SlowEvery int     `json:"slow_every,omitempty"` // ... only after every k-th request (0 or 1: every request)
+	SlowUs    int     `json:"slow_us,omitempty"` // the consumer waits this long after every request (backpressure: batchCh fills, writers block)
+	Plain     bool    `json:"plain,omitempty"`   // concurrent run: every write is one object without flush channel
+	Stress    bool    `json:"stress,omitempty"`  // large backpressure run judged by the oracle only (too big to hand to Coq in the quick tier)
 	Seed      int64   `json:"seed"`
 }
 
@@ -99,6 +103,10 @@ func c24IsClosed(c FlushChannel) bool {
 // scan looks at every flush channel the driver has handed out; returns ids found closed that were not closed before
 func (r *c24Run) scan() []int {
 	r.mu.Lock()
+	if len(r.chanLst) == 0 {
+		r.mu.Unlock()
+		return nil
+	}
 	lst := append([]FlushChannel{}, r.chanLst...)
 	r.mu.Unlock()
 	var nw []int
@@ -179,6 +187,14 @@ func (r *c24Run) consumer() {
 			r.batches = append(r.batches, b)
 			r.mu.Unlock()
 			r.nDeliv.Add(1)
+			if d := time.Duration(r.in.SlowUs) * time.Microsecond; d > 0 && (r.in.SlowEvery <= 1 || int(r.nDeliv.Load())%r.in.SlowEvery == 0) {
+				if d >= 50*time.Microsecond {
+					time.Sleep(d)
+				} else {
+					for t0 := time.Now(); time.Since(t0) < d; {
+					}
+				}
+			}
 		}
 	}
 }
@@ -202,7 +218,8 @@ func (r *c24Run) blocking(f func()) {
 	}
 }
 
-func (r *c24Run) write(gor, order, nobj int, withFC bool) *c24Write {
+// prep registers a write (its objects and flush channel are known to the consumer before Write is called)
+func (r *c24Run) prep(gor, order, nobj int, withFC bool) *c24Write {
 	w := &c24Write{gor: gor, order: order}
 	r.mu.Lock()
 	w.id = len(r.writes)
@@ -219,6 +236,11 @@ func (r *c24Run) write(gor, order, nobj int, withFC bool) *c24Write {
 		r.chanLst = append(r.chanLst, w.fc)
 	}
 	r.mu.Unlock()
+	return w
+}
+
+// issue calls Queue.Write and records the sequence number it returned
+func (r *c24Run) issue(w *c24Write, direct bool) {
 	call := func() {
 		s, err := r.q.Write(w.objs, w.fc)
 		w.err = err
@@ -226,11 +248,16 @@ func (r *c24Run) write(gor, order, nobj int, withFC bool) *c24Write {
 			w.seq = s - r.base
 		}
 	}
-	if r.in.Mode == "conc" && gor >= 0 && order < 1<<20 {
-		call() // the consumer is never paused in concurrent runs: call Write on the writer's own goroutine
+	if direct {
+		call() // concurrent runs never pause the consumer: Write is called on the writer's own goroutine
 	} else {
 		r.blocking(call)
 	}
+}
+
+func (r *c24Run) write(gor, order, nobj int, withFC bool) *c24Write {
+	w := r.prep(gor, order, nobj, withFC)
+	r.issue(w, false)
 	return w
 }
 
@@ -290,24 +317,36 @@ func c24Exec(in c24Input) *c24Run {
 				if p.n == 0 {
 					p.fc = true
 				}
+				if in.Stress || in.Plain {
+					p = plan{n: 1} // no flush channels: the consumer stays as fast as the queue, except when it deliberately stalls
+				}
 				if timed && rng.Intn(4) == 0 {
 					p.sleep = time.Duration(rng.Intn(2*in.TimeoutUs+1)) * time.Microsecond
 				}
 				plans[g] = append(plans[g], p)
 			}
 		}
+		pre := make([][]*c24Write, in.Writers)
+		for g := range plans {
+			for i, p := range plans[g] {
+				pre[g] = append(pre[g], r.prep(g, i, p.n, p.fc))
+			}
+		}
+		start := make(chan struct{})
 		for g := 0; g < in.Writers; g++ {
 			wg.Add(1)
 			go func(g int) {
 				defer wg.Done()
+				<-start
 				for i, p := range plans[g] {
 					if p.sleep > 0 {
 						time.Sleep(p.sleep)
 					}
-					r.write(g, i, p.n, p.fc)
+					r.issue(pre[g][i], true) // tight loop: nothing but Write between two writes
 				}
 			}(g)
 		}
+		close(start)
 		if in.Flushes > 0 {
 			wg.Add(1)
 			go func() {
@@ -726,6 +765,22 @@ func c24Case(r *c24Run) (coq string, sizes []int, nShort, nFull int) {
 func c24RunCase(w *vWriter, in c24Input) {
 	r := c24Exec(in)
 	fails := append(append([]string{}, r.fails...), c24Oracle(r)...)
+	// report the most specific kind first: an ordering violation also upsets the count of writes per request
+	// (members are attributed by sequence-number range), not the other way round
+	prio := func(f string) int {
+		switch strings.SplitN(f, "|", 2)[0] {
+		case "C24:sequence-number-returned-twice", "C24:write-sequence-not-increasing":
+			return 0
+		case "C24:object-delivered-twice", "C24:object-lost", "C24:request-close-panicked":
+			return 1
+		case "C24:writes-out-of-order", "C24:write-delivered-after-a-later-number", "C24:request-sequence-not-increasing", "C24:request-number-below-a-member":
+			return 2
+		case "C24:request-is-not-its-writes-in-order":
+			return 9
+		}
+		return 5
+	}
+	sort.SliceStable(fails, func(i, j int) bool { return prio(fails[i]) < prio(fails[j]) })
 	coq, sizes, nShort, nFull := c24Case(r)
 	timed := in.TimeoutUs != 0 && !in.HugeTO
 	tags := []string{"mode=" + in.Mode, fmt.Sprintf("batch_size=%d", in.BatchSize)}
@@ -751,6 +806,13 @@ func c24RunCase(w *vWriter, in c24Input) {
 	}
 	if in.CloseEnd {
 		tags = append(tags, "closed-at-end")
+	}
+	if in.SlowUs > 0 {
+		tags = append(tags, "backpressure")
+	}
+	if in.Stress {
+		coq = "" // oracle only
+		tags = append(tags, "stress-oracle-only")
 	}
 	c := VCase{Input: in, Coq: coq, Nontrivial: nShort > 0 && nFull > 0, Key: vJSON(in) + fmt.Sprint(sizes), Tags: tags}
 	if len(fails) > 0 {
@@ -830,6 +892,32 @@ func c24GenConc(rng *rand.Rand, timed bool, big bool) c24Input {
 	return in
 }
 
+// c24GenBackpressure: several writers in tight loops against a channel of capacity 1-2 and a consumer that is
+// slower than the writers, so that batchCh is full most of the time and Write blocks with the sequence
+// number already taken.  The order in which blocked writers get their item into the channel must still be
+// the order of their sequence numbers (Write holds seqMu across the send).
+func c24GenBackpressure(rng *rand.Rand, timed bool, stress bool) c24Input {
+	in := c24Input{Mode: "conc", BatchSize: 1 + rng.Intn(3), Seed: rng.Int63(), MaxSize: 1 + rng.Intn(2)}
+	in.Writers = 2 + rng.Intn(5)
+	in.PerWriter = 10 + rng.Intn(25)
+	in.SlowUs = []int{5, 20, 60, 150}[rng.Intn(4)]
+	in.SlowEvery = []int{1, 3, 7}[rng.Intn(3)]
+	if stress {
+		in.Stress = true
+		in.MaxSize = 1
+		in.Writers = 6 + rng.Intn(3)
+		in.PerWriter = 600
+		in.SlowUs = []int{10, 20, 20, 50}[rng.Intn(4)]
+		in.SlowEvery = []int{3, 7, 7, 13}[rng.Intn(4)]
+	}
+	if timed {
+		in.TimeoutUs = []int{500, 1000, 2000}[rng.Intn(3)]
+	} else {
+		in.Flushes = rng.Intn(4)
+	}
+	return in
+}
+
 func TestVerif_C24(t *testing.T) {
 	w := vOpen()
 	defer w.Close()
@@ -853,12 +941,14 @@ func TestVerif_C24(t *testing.T) {
 		{Mode: "script", MaxSize: 8, BatchSize: 4, TimeoutUs: 3600000000, HugeTO: true, Ops: []c24Op{{K: "w", N: 1}, {K: "w", N: 1}, {K: "f"}, {K: "w", N: 1}, {K: "w", N: 1}, {K: "w", N: 1}, {K: "w", N: 1}}},
 		{Mode: "conc", MaxSize: 16, BatchSize: 3, Writers: 4, PerWriter: 10, Flushes: 3},
 		{Mode: "conc", MaxSize: 16, BatchSize: 4, Writers: 4, PerWriter: 10, TimeoutUs: 1000},
+		{Mode: "conc", MaxSize: 1, BatchSize: 1, Writers: 4, PerWriter: 40, SlowUs: 20},
+		{Mode: "conc", MaxSize: 2, BatchSize: 2, Writers: 3, PerWriter: 40, SlowUs: 60, Flushes: 2},
 	}
 	for _, in := range corpus {
 		c24RunCase(w, in)
 	}
-	nDet := vN(200, 20000)
-	nTimed := vN(50, 2000)
+	nDet := vN(200, 6000)
+	nTimed := vN(50, 1000)
 	for i := 0; i < nDet && c24Slow.Load() < 3; i++ {
 		switch {
 		case i%40 == 39:
@@ -868,6 +958,19 @@ func TestVerif_C24(t *testing.T) {
 		default:
 			c24RunCase(w, c24GenScript(rng, false))
 		}
+	}
+	nBP := vN(24, 1500)
+	for i := 0; i < nBP && c24Slow.Load() < 3; i++ {
+		in := c24GenBackpressure(rng, i%4 == 3, false)
+		if i%2 == 1 { // a smaller copy of the stress runs that the model is run on as well
+			in.MaxSize, in.Writers, in.PerWriter, in.SlowUs, in.SlowEvery, in.Flushes = 1, 6, 80, 20, 7, 0
+			in.Plain = true
+		}
+		c24RunCase(w, in)
+	}
+	nStress := vN(40, 600)
+	for i := 0; i < nStress && c24Slow.Load() < 3; i++ {
+		c24RunCase(w, c24GenBackpressure(rng, i%4 == 3, true))
 	}
 	for i := 0; i < nTimed && c24Slow.Load() < 3; i++ {
 		switch {
